@@ -129,14 +129,15 @@ def handleVersion := handleVersionG true
 
 /-! ### inv (invs.go ProcessInv) -/
 
-/-- the loop `for i := 0; i < cnt; i++`: `k` iterations left, `of` current offset -/
-def invLoop (pl : Bytes) (n : Int) : Nat → Int → List Bytes → Nat → Res
-  | 0, _, acc, st => ⟨.ok "inv" [acc.length] acc.reverse, [], st⟩
-  | k+1, of, acc, st =>
+/-- the loop `for i := 0; i < cnt; i++`: `k` iterations left, `of` current offset, `rest` = `pl[of:]`
+    (carried along so that the executable model is linear in the payload) -/
+def invLoop (n : Int) : Nat → Int → Bytes → List Bytes → Nat → Res
+  | 0, _, _, acc, st => ⟨.ok "inv" [acc.length] acc.reverse, [], st⟩
+  | k+1, of, rest, acc, st =>
     if !sliceOk n of (wrap (of + 4)) then ⟨.panic "ProcessInv:pl[of:of+4]", [], st⟩ else
     -- c.Mutex.Lock(); c.InvStore(typ, pl[of+4:of+36])
     if !sliceOk n (wrap (of + 4)) (wrap (of + 36)) then ⟨.panic "ProcessInv:pl[of+4:of+36]", [.conn], st⟩ else
-    invLoop pl n k (wrap (of + 36)) (sub pl of (of + 36) :: acc) (st + 1)
+    invLoop n k (wrap (of + 36)) (rest.drop 36) (rest.take 36 :: acc) (st + 1)
 
 def processInvG (fixed : Bool) (pl : Bytes) : Res :=
   let n : Int := pl.length
@@ -146,7 +147,7 @@ def processInvG (fixed : Bool) (pl : Bytes) : Res :=
     if fixed then (ofs == 0 || decide (cnt < 0) || decide (cnt > 50000) || decide (n ≠ wrap (ofs + wrap (36 * cnt))))
     else (ofs == 0 || decide (n ≠ wrap (ofs + wrap (36 * cnt))))
   if bad then ⟨.reject "InvErr", [], 1⟩ else
-  invLoop pl n cnt.toNat ofs [] 1
+  invLoop n cnt.toNat ofs (pl.drop ofs) [] 1
 
 def processInv := processInvG true
 
